@@ -176,6 +176,8 @@ std::string b64(const std::string &in);
 std::string sha1(const std::string &in);
 std::string hexenc(const std::string &s);
 std::string hexdec(const std::string &s);
+std::string ascii_safe(const std::string &s);   // printable rendering of arbitrary bytes for reports
+bool valid_utf8(const std::string &s);
 
 // ------------------------------------------------------------------ run entry points (world.cpp)
 struct RunResult {
